@@ -28,11 +28,18 @@ func (p *Prog) newCanonEnv(fd *ast.FuncDecl) *canonEnv {
 		}
 	}
 	i := 0
+	if p.asMethod[fd] {
+		i = -1 // the former receiver comes first
+	}
 	if fd.Type.Params != nil {
 		for _, f := range fd.Type.Params.List {
 			for _, n := range f.Names {
 				if o := p.Info.Defs[n]; o != nil {
-					env.params[o] = "P" + itoa(i)
+					if i < 0 {
+						env.params[o] = "R"
+					} else {
+						env.params[o] = "P" + itoa(i)
+					}
 				}
 				i++
 			}
